@@ -367,6 +367,16 @@ func (m *Machine) Draw(t *rapid.T, g *GenOpts) Action {
 		a.Key = rapid.IntRange(0, len(m.Keys)-1).Draw(t, "key")
 	case "optOut":
 		a.Op = op()
+		// never let the last opted-in operator leave: a chain without validators is out of scope
+		in := 0
+		for _, o := range m.W.Operators {
+			if m.C.App.OperatorKeeper.IsOptedIn(m.C.Ctx(), o.Bech32(), m.W.AvsAddr) {
+				in++
+			}
+		}
+		if in <= 1 && m.C.App.OperatorKeeper.IsOptedIn(m.C.Ctx(), m.W.Operators[a.Op].Bech32(), m.W.AvsAddr) {
+			a = Action{Kind: "nextBlock", Dt: 7}
+		}
 	}
 	if g.lastExtreme {
 		a.Hostile = true
